@@ -306,7 +306,7 @@ def run(P, R, tier):
     for o in sub.obs:
         if o.rule == 'C12.g':
             R._add('C06.d', (o.path, o.site.split('::')[-1]), None, o.status, o.detail, construct=o.construct)
-        elif o.rule in ('C12.a', 'C12.b', 'C12.c', 'C12.d', 'C12.e', 'C12.f', 'C12.h', 'C12.i'):
+        elif o.rule in ('C12.a', 'C12.b', 'C12.c', 'C12.d', 'C12.e', 'C12.f', 'C12.h', 'C12.i', 'C12.j'):
             R._add('C06.d', (o.path, o.site.split('::')[-1]), None, o.status, f'[{o.rule}] a frame read with bounds=/geometry= must carry, for every geometry column, the bounds of exactly the partitions it kept: ' + o.detail, construct=o.construct)
 
     # the frame pack_partitions_to_parquet returns holds the rows of THIS run only: each part is read from the sub-parts named by the run, after the
